@@ -1085,3 +1085,33 @@ def rule_band(F, ev, R, config, rule="R-BAND"):
     okl = al[0] == "call" and is_call(dimval(al[3][0]), TRAIT_MODEL + "::output_len")
     R.add(rule, config, cb_.key, "sigma-has-one-entry-per-sample", okl, "" if okl else "sigma allocated as `%s`" % short(al)[:100], s.get("span"))
     R.floor(rule, config, 9, "precondition 3 + panic + quantile + nu + radius + sigma + length")
+
+
+def rule_stats_sealed(F, ev, R, config, rule="R-STATS-SEALED"):
+    """a FitStatistics value is what its single constructor computed: no public field, no assignment to or mutable borrow of
+    a field anywhere, no `&mut` handed out, no second constructor (besides Clone, R-CLONE-IDENTITY). A public setter or
+    `&mut` accessor would let a caller produce statistics that are not those of any fit."""
+    for f in struct_fields(F, ADT_STATS):
+        ok = f["vis"] != "pub"
+        R.add(rule, config, ADT_STATS, "private:" + f["name"], ok, "" if ok else "field `%s` of FitStatistics is public" % f["name"])
+    ctors = set((b.key, bi, si) for b, bi, si, s in stats_ctor_bodies(F))
+    R.add(rule, config, ADT_STATS, "single-constructor", len(ctors) == 1, "" if len(ctors) == 1 else "%d construction sites of FitStatistics" % len(ctors))
+    for b in sorted(F.bodies.values(), key=lambda x: x.key):
+        im = b.j.get("impl", {})
+        out = b.j.get("output", "")
+        if b.kind != "Closure" and im.get("self_adt") == ADT_STATS and "&mut" in out:
+            R.bad(rule, config, b.key, "no-mut-escape", "returns a mutable reference `%s` into the statistics" % out[:60], b.j["span"])
+        if im.get("trait") == "std::clone::Clone" and im.get("self_adt") == ADT_STATS:
+            continue
+        for bi, si, s in b.stmts():
+            if s["k"] != "assign":
+                continue
+            pf = [e for e in s["place"]["proj"] if e["k"] == "field" and e.get("owner") == ADT_STATS]
+            if pf:
+                R.bad(rule, config, b.key, "write:" + pf[0]["name"], "field `%s` of a FitStatistics value is written after construction" % pf[0]["name"], s.get("span"))
+            rv = s["rv"]
+            if rv["k"] in ("ref", "rawptr") and rv.get("mut"):
+                pf = [e for e in rv["place"]["proj"] if e["k"] == "field" and e.get("owner") == ADT_STATS]
+                if pf:
+                    R.bad(rule, config, b.key, "mut-borrow:" + pf[0]["name"], "mutable borrow of field `%s` of a FitStatistics value" % pf[0]["name"], s.get("span"))
+    R.floor(rule, config, 5, "private fields + single constructor")
